@@ -347,6 +347,10 @@ func runOne(l *Loaded, h HarnessCfg, params map[string]int, nworkers int, solver
 	for _, o := range h.Opts {
 		opts[o] = true
 	}
+	solverLogic = "QF_BV"
+	if opts["uf"] {
+		solverLogic = "QF_UFBV"
+	}
 	sh := RunHarness(l.prog, fn, h.Name, nworkers, solver, timeoutMs, deadline, opts)
 	st := sh.stats
 	res := &HarnessResult{
@@ -639,8 +643,10 @@ func cmdRun(args []string) int {
 	nw := fs.Int("j", runtime.NumCPU(), "workers")
 	solver := fs.String("solver", "z3", "solver")
 	trace := fs.Bool("trace", false, "trace instructions")
+	uf := fs.Bool("uf", false, "harness uses uninterpreted functions (QF_UFBV)")
 	replay := fs.Bool("replay", false, "replay violations natively")
 	pstr := fs.String("p", "", "params k=v,k=v")
+	tlim := fs.Int("t", 0, "time limit in seconds (0 = none)")
 	fs.BoolVar(&verbose, "v", false, "verbose")
 	fs.Parse(args)
 	params := map[string]int{}
@@ -660,7 +666,14 @@ func cmdRun(args []string) int {
 	fmt.Printf("loaded in %.1fs\n", l.loadS)
 	name := strings.TrimPrefix(*fn, "Verif")
 	h := HarnessCfg{Pkg: *pkg, Name: name, Fn: *fn}
-	sh, res, err := runOne(l, h, params, *nw, *solver, 60000, time.Time{}, *trace)
+	if *uf {
+		h.Opts = []string{"uf"}
+	}
+	var dl time.Time
+	if *tlim > 0 {
+		dl = time.Now().Add(time.Duration(*tlim) * time.Second)
+	}
+	sh, res, err := runOne(l, h, params, *nw, *solver, 60000, dl, *trace)
 	if err != nil {
 		fmt.Fprintln(os.Stderr, err)
 		return 2
